@@ -21,13 +21,13 @@ def run(ctx):
         if v["clause"] == "RawNulOK":
             v["cls"] = "raw-nul-in-path"
     ctx.violations += bad
-    exp = sum(23 ** k for k in range(L + 1)) * 26
+    exp = sum(29 ** k for k in range(L + 1)) * 26
     vac = None if distinct >= exp else "recorded %d distinct rows, the declared space has %d (atom sequences x configurations)" % (distinct, exp)
     samples = [json.loads(l) for l in open(files[0]).read().splitlines()[300:302]]
     vlib.finish(ctx, "model_checking", {
         "states": mc.distinct, "transitions": max(mc.generated, 1), "traces_validated_against_impl": total,
         "evaluations": total, "distinct_nontrivial": distinct,
-        "rule": "paths = all sequences of <= %d atoms from 23 atoms {/ . a A \\\\ %% u %%2f %%5c %%2e %%00 %%25 %%41 %%zz %%2 %%u002f %%uff0f %%u00 NUL, 2-byte UTF-8, overlong slash, lone continuation, "
+        "rule": "paths = all sequences of <= %d atoms from 29 atoms {/ . a A \\\\ %% u %%2f %%5c %%2e %%00 %%25 %%41 %%zz %%2 %%u002f %%uff0f %%u00 NUL, 2-byte UTF-8, overlong slash, lone continuation, 4-byte forms (supplementary-plane character with a best-fit low half, U+10000, overlong 4- and 3-byte slash, above U+10FFFF, surrogate), "
                 "fullwidth solidus} x 26 decoder configurations (8 personalities + single-switch deviations + combinations), through htp_normalize_parsed_uri and (when the request line can carry it) "
                 "a real request; all strings <= %d over {/ . a}; seeded random atom/byte mixes; %s" % (L, 8 if q else 10, "a 1/40 slice of the 3-atom space" if q else ""),
         "samples": samples, "exhaustive": True, "exhaustive_space": "atom sequences of length <= %d x 26 configurations; dot alphabet strings" % L,
